@@ -83,6 +83,12 @@ class Bash(linux_shell.LinuxShell):
             self.ch.sendline("PS2=''")
             self.ch.read_until_prompt()
 
+            # Make the tty echo control characters as they are instead of in
+            # caret notation (`^A`).  The read-back of a sent command expects
+            # one byte of echo per control character.
+            self.ch.sendline("stty -echoctl")
+            self.ch.read_until_prompt()
+
             # Disable history expansion because it is not always affected by
             # quoting rules and thus can mess with parameter values.  For
             # example, m.exec0("echo", "\n^") triggers the 'quick substitution'
